@@ -6,6 +6,8 @@
 (* configuration and environment facts of the behaviour.                  *)
 (*                                                                         *)
 (* Events:  Msg(reqtls, tlsno, quar)   driver, before Target.Start        *)
+(*          Quar                       driver, quarantine flag raised after *)
+(*                                     AddRcpt, before the body call       *)
 (*          Lookup(mx, cross)          harness, where the outstanding TLSA *)
 (*                                     answer of an earlier MX was stored  *)
 (*          SrvConn(mx, tls, cert)     scripted server, TLS state settled *)
@@ -57,7 +59,8 @@ TReset ==
   /\ hist' = <<>>
   /\ l' = l + 1 /\ drift' = FALSE /\ driftAt' = 0 /\ tno' = Ev.t /\ kviol' = {}
 
-MsgOf(e) == [reqtls |-> e.reqtls, tlsno |-> e.tlsno, quar |-> e.quar]
+MsgOf(e) == [reqtls |-> e.reqtls, tlsno |-> e.tlsno, quar |-> e.quar,
+             mailfail |-> e.mailfail, qlate |-> e.qlate, na |-> e.na]
 
 C_Msg  == IsEv("Msg") /\ StartMsg(MsgOf(Ev))
 C_Look == IsEv("Lookup") /\ Lookup(Ev.mx, Ev.cross)
@@ -65,10 +68,11 @@ C_Conn == IsEv("SrvConn") /\ Connect(Ev.mx, Ev.tls)
 C_Data == IsEv("SrvData") /\ Data(Ev.mx, Ev.tls) /\ (Ev.tls = "none" \/ Ev.cert = cfg.mx[Ev.mx].cert)
 C_Ret  == IsEv("Ret") /\
             \/ Ev.op = "addrcpt" /\ (RetQuarantine(Ev.res) \/ LookupFail(Ev.res) \/ NoMX(Ev.res) \/ Gate(Ev.res))
-            \/ Ev.op = "body" /\ BodyRet(Ev.res)
+            \/ Ev.op = "body" /\ (BodyRet(Ev.res) \/ BodyRefuse(Ev.res))
+C_Quar == IsEv("Quar") /\ RaiseQuar
 C_End  == IsEv("End") /\ Finish
 
-Consume == C_Msg \/ C_Look \/ C_Conn \/ C_Data \/ C_Ret \/ C_End
+Consume == C_Msg \/ C_Quar \/ C_Look \/ C_Conn \/ C_Data \/ C_Ret \/ C_End
 Conform == Consume \/ Silent
 
 C_Step ==
@@ -83,6 +87,7 @@ C_Step ==
 (* the observation fold, independent of the design state *)
 ObsApply(o, e) ==
   CASE e.e = "Msg"     -> ObsMsg(o, MsgOf(e))
+    [] e.e = "Quar"    -> ObsQuar(o)
     [] e.e = "SrvData" -> ObsData(o, cfg, [mx |-> e.mx, tls |-> e.tls, cert |-> e.cert])
     [] e.e = "Ret"     -> ObsRet(o, cfg, e.op, e.res)
     [] OTHER -> o
